@@ -613,3 +613,18 @@ V('BYTEWIN_end_rounded_up', ['C07'], 'bitstore.py', "            end_byte = end 
 V('BYTEWIN_start_rounded_down', ['C07'], 'bitstore.py', "            start_byte = (start + 7) // 8\n", "            start_byte = start // 8\n", ['BYTEWIN'])
 V('BYTEWIN_raw_end', ['C07'], 'bitstore.py', "            b = self._bitarray[start_byte * 8: end_byte * 8].tobytes()", "            b = self._bitarray[start_byte * 8: end].tobytes()", ['BYTEWIN'])
 S('BYTEWIN_rename_locals', ['C07'], 'bitstore.py', fn=rename_local('start_byte', 'first_byte'))
+
+# ---- REP / STALE
+V('REP_elementwise_loop', ['C05'], 'utils.py', "        final_tokens.extend(tokens * factor)", "        for token in tokens:\n            final_tokens.extend([token] * factor)", ['REP'])
+V('REP_elementwise_comprehension', ['C05'], 'utils.py', "        final_tokens.extend(tokens * factor)", "        final_tokens.extend([t for t in tokens for _ in range(factor)])", ['REP'])
+S('REP_group_loop', ['C05'], 'utils.py', "        final_tokens.extend(tokens * factor)", "        for _ in range(factor):\n            final_tokens.extend(tokens)")
+S('REP_group_comprehension', ['C05'], 'utils.py', "        final_tokens.extend(tokens * factor)", "        final_tokens += [t for _ in range(factor) for t in tokens]")
+def _hoist_remaining(src):
+    a = "        # We should have precisely zero or one stretchy token\n        vals = []"
+    b = "                bits_remaining = len(self) - pos\n"
+    if src.count(a) != 1 or src.count(b) != 1:
+        return None
+    return src.replace(b, "").replace(a, a + "\n        bits_remaining = len(self) - pos")
+
+
+V('STALE_stretchy_length_hoisted', ['C05', 'C06'], 'bits.py', fn=_hoist_remaining, expect=['STALE'])
